@@ -352,21 +352,10 @@ def check_seq_tr_gapped(case, T):
 # --------------------------------------------------------------------------
 # 5. collection / alignment trim_stop_codons, has_terminal_stop
 # --------------------------------------------------------------------------
-def _mk_coll(entry, seqs, moltype="dna"):
-    import cogent3
+def _mk_coll(entry, seqs, moltype="dna", history=()):
+    from . import c12_hist
 
-    d = {f"s{i}": s for i, s in enumerate(seqs)}
-    if entry == "old.SequenceCollection":
-        return cogent3.make_unaligned_seqs(d, moltype=moltype)
-    if entry == "old.ArrayAlignment":
-        return cogent3.make_aligned_seqs(d, moltype=moltype, array_align=True)
-    if entry == "old.Alignment":
-        return cogent3.make_aligned_seqs(d, moltype=moltype, array_align=False)
-    if entry == "new.SequenceCollection":
-        from cogent3.core import new_alignment
-
-        return new_alignment.make_unaligned_seqs(d, moltype=moltype)
-    raise ValueError(entry)
+    return c12_hist.build(entry, list(seqs), moltype, history)
 
 
 def check_coll_trim(case, T):
@@ -379,7 +368,21 @@ def check_coll_trim(case, T):
     aligned = "Alignment" in entry
     shape = ("gapped" if any("-" in s for s in seqs) else "ungapped") + (":len%3" if any(len(s.replace("-", "")) % 3 for s in seqs) else "")
     n = len(seqs)
-    got = _call(lambda: [str(v) for k, v in sorted(_mk_coll(entry, [_u(s, rna) for s in seqs], mt).trim_stop_codons(gc=code, strict=strict).to_dict().items())])
+    hist = case.get("history") or ()
+    if hist:
+        # the oracle speaks about what the derived collection DISPLAYS at the time of the call
+        shown = _call(lambda: [str(v) for _, v in sorted(_mk_coll(entry, [_u(s, rna) for s in seqs], mt, hist).to_dict().items())])
+        if isinstance(shown, dict) or len(shown) != len(seqs):
+            return dict(what=f"{entry} [{mt}]: building the collection with history {'+'.join(hist)} failed", expected=seqs, got=shown,
+                        sig=f"{entry}[{mt}]:history-build:{'+'.join(sorted(set(hist)))}")
+        pre = list(seqs)
+        seqs = [s.replace("U", "T") for s in shown]
+        wants = [o_trim_stop(tbl, s, strict) for s in seqs]
+        shape = ("gapped" if any("-" in s for s in seqs) else "ungapped") + (":len%3" if any(len(s.replace("-", "")) % 3 for s in seqs) else "")
+        got = _call(lambda: [str(v) for k, v in sorted(_mk_coll(entry, [_u(s, rna) for s in pre], mt, hist).trim_stop_codons(gc=code, strict=strict).to_dict().items())])
+    else:
+        pre = list(seqs)
+        got = _call(lambda: [str(v) for k, v in sorted(_mk_coll(entry, [_u(s, rna) for s in seqs], mt, hist).trim_stop_codons(gc=code, strict=strict).to_dict().items())])
     rejected = any(w is None for w in wants)
     if rejected:
         # strict: a sequence of bad length is rejected -- unless an earlier sequence already answered
@@ -402,14 +405,19 @@ def check_coll_trim(case, T):
             # every sequence is either right or an untouched gapped sequence whose stop should have gone
             if all(g == w or (("-" in s or aligned) and g.rstrip("-") == _u(s, True).rstrip("-")) for s, w, g in zip(seqs, lax if rejected else want, got)):
                 cls = "rna-gapped-terminal-stop-not-trimmed"
-        return dict(what=f"{entry}.trim_stop_codons(strict={strict}) [{mt}]", expected=want, got=got, sig=f"{entry}.trim_stop_codons[{mt}]:{cls}")
+        after = (":after:" + "+".join(sorted(set(hist)))) if hist else ""
+        if hist and isinstance(got, list) and isinstance(want, list) and got == [_o_comp(w, rna)[::-1] for w in want]:
+            after = ":derived-state:result-reverse-complemented"
+        return dict(what=f"{entry}.trim_stop_codons(strict={strict}) [{mt}]" + (f" after {'+'.join(hist)}: displays {seqs}" if hist else ""), expected=want, got=got,
+                    sig=f"{entry}.trim_stop_codons[{mt}]:{cls}{after}")
     want = None if any(o_has_terminal_stop(tbl, s, strict) is None for s in seqs) else any(o_has_terminal_stop(tbl, s, strict) for s in seqs)
-    got = _call(lambda: bool(_mk_coll(entry, [_u(s, rna) for s in seqs], mt).has_terminal_stop(gc=code, strict=strict)))
+    got = _call(lambda: bool(_mk_coll(entry, [_u(s, rna) for s in pre], mt, hist).has_terminal_stop(gc=code, strict=strict)))
     if not (got == want or (want is None and isinstance(got, dict)) or (isinstance(got, dict) and any(o_has_terminal_stop(tbl, s, strict) for s in seqs) and want is None)):
         # an early True may be returned before a later sequence of bad length is inspected
         if not (want is None and got is True and any(o_has_terminal_stop(tbl, s, False) for s in seqs)):
-            return dict(what=f"{entry}.has_terminal_stop(strict={strict}) [{mt}]", expected="rejected" if want is None else want, got=got,
-                        sig=f"{entry}.has_terminal_stop[{mt}]:{shape}")
+            after = (":after:" + "+".join(sorted(set(hist)))) if hist else ""
+            return dict(what=f"{entry}.has_terminal_stop(strict={strict}) [{mt}]" + (f" after {'+'.join(hist)}" if hist else ""),
+                        expected="rejected" if want is None else want, got=got, sig=f"{entry}.has_terminal_stop[{mt}]:{shape}{after}")
     return None
 
 
@@ -807,6 +815,11 @@ def code_specific_cases(rng, budget, T):
                                    moltype="rna" if rng.random() < 0.15 else "dna")
                     if entry != "app.translate_seqs":
                         yield dict(kind="coll.trim_stop_codons", entry=entry, code=code, seqs=seqs, strict=rng.random() < 0.5, moltype="dna")
+                        if rng.random() < 0.5:
+                            from . import c12_hist
+
+                            yield dict(kind="coll.trim_stop_codons", entry=entry, code=code, seqs=seqs, strict=rng.random() < 0.5, moltype="dna",
+                                       history=c12_hist.random_history(rng, entry))
                 for impl in ("old", "new") if code in ids_old else ("new",):
                     yield dict(kind="seq.get_translation", impl=impl, code=code, s=seqs[0], incomplete_ok=False, include_stop=False, trim_stop=True, moltype="dna", via_rc=False)
                     yield dict(kind="seq.stop_api", impl=impl, code=code, s=seqs[0], strict=False, moltype="dna")
@@ -972,6 +985,11 @@ def cases(rng, budget, T):
         mt = rng.choice(["dna", "dna", "rna"])
         for entry in ("old.SequenceCollection", "old.ArrayAlignment", "old.Alignment", "new.SequenceCollection"):
             yield dict(kind="coll.trim_stop_codons", entry=entry, code=code, seqs=seqs, strict=rng.random() < 0.5, moltype=mt)
+            if rng.random() < 0.5:
+                from . import c12_hist
+
+                yield dict(kind="coll.trim_stop_codons", entry=entry, code=code, seqs=seqs, strict=rng.random() < 0.5, moltype=mt,
+                           history=c12_hist.random_history(rng, entry))
     # ORFs on either strand
     for _ in range(25 * budget):
         code = rng.choice(both)
